@@ -168,8 +168,8 @@ def from_search(facts, t, depth=0):
         nm = facts.fns.get(t[1][1], {}).get("name")
         if nm == "search" and t[0] in ("ok", "err"):
             return t[0] + "(search)"
-        if nm == "get_index" and t[0] == "some":
-            return "some(get_index)"
+        if nm == "get_index" and t[0] in ("some", "ok"):
+            return "some(get_index)"  # ("ok": the Continue payload of `get_index(k)?`, i.e. the Some payload)
     return None
 
 
